@@ -3,6 +3,7 @@ package sim
 import (
 	"context"
 	"errors"
+	"fmt"
 	"io"
 	"net"
 	"os"
@@ -542,6 +543,13 @@ func (s *Sim) dialAction(p *park) Action {
 		if w.FaultOK() && w.Tape.Flip("dfail", o.DialFail) {
 			w.Fault("dial_fail")
 			op.err = errDialRefused
+			if w.Tape.Flip("dfail-canceled", 200) {
+				// a Dialer that gave up on a context of its own: the
+				// error wraps context.Canceled though nobody closed
+				// the client
+				op.err = fmt.Errorf("sim: dial: %w", context.Canceled)
+				w.Probe("dial_error_wraps_canceled")
+			}
 			w.Ev("dial", 0, "%s dial refused", p.g)
 			s.unpark(p)
 			return
